@@ -326,7 +326,7 @@ func init() {
 			}
 			return m
 		},
-		NumCases: func(c *core.Ctx) int { return c.Pick(480, 12000) },
+		NumCases: func(c *core.Ctx) int { return c.Pick(480, 2000) },
 		Setup:    nil,
 		Run:      runC11,
 		Finish:   c11finish,
